@@ -23,7 +23,7 @@ func init() {
 		ID:    "C02",
 		Level: "exploration",
 		Rule: "for generated (parameters, current state) pairs - the current state is reached on a real StateMachine by Init, signing, EnableInit, SetFunded and 0..6 accepted updates (payments, locked funds added/removed, optionally a final one) with the no-app, payment app and data app, 2..4 participants, 1..3 assets - " +
-			"one valid successor, every single-condition violation (29 mutators) and random double violations are offered to Update and CheckUpdate, and valid/invalid initial allocations to Init; the verdict is compared with an independent predicate written from the statement. " +
+			"one valid successor, every single-condition violation (38 mutators) and random double violations are offered to Update and CheckUpdate, and valid/invalid initial allocations to Init; the verdict is compared with an independent predicate written from the statement. " +
 			"A case is (app, participants, assets, locked count, current final?, version class, mutator); non-trivial iff the candidate violates >= 1 condition or is the valid successor of a state with version >= 1",
 		Run: run,
 	})
@@ -58,6 +58,35 @@ var mutators = []cand{
 	{"sum+1", func(r *rand.Rand, c *ctx, s *channel.State, _ *channel.Index) bool {
 		i, j := r.Intn(len(s.Balances)), r.Intn(len(s.Balances[0]))
 		s.Balances[i][j] = new(big.Int).Add(s.Balances[i][j], one())
+		return true
+	}},
+	{"sum+2^64-in-word-sized-entries", func(r *rand.Rand, c *ctx, s *channel.State, _ *channel.Index) bool {
+		// every entry still fits 64 bits, the row's total grows by exactly 2^64: a total that is
+		// accumulated in a machine word cannot tell this row from the current one
+		i := r.Intn(len(s.Balances))
+		if len(s.Balances[i]) < 2 {
+			return false
+		}
+		rest := new(big.Int).Add(s.Balances[i][0], s.Balances[i][1])
+		s.Balances[i][0] = new(big.Int).SetUint64(math.MaxUint64)
+		s.Balances[i][1] = rest.Add(rest, one())
+		return true
+	}},
+	{"sum+2^64", func(r *rand.Rand, c *ctx, s *channel.State, _ *channel.Index) bool {
+		i, j := r.Intn(len(s.Balances)), r.Intn(len(s.Balances[0]))
+		s.Balances[i][j] = new(big.Int).Add(s.Balances[i][j], new(big.Int).Lsh(one(), 64))
+		return true
+	}},
+	{"locked-amount+2^64-in-word-sized-entries", func(r *rand.Rand, c *ctx, s *channel.State, _ *channel.Index) bool {
+		// the same through the locked funds: balance 2^64-1, locked amount +1 more than was taken
+		if len(s.Locked) == 0 {
+			return false
+		}
+		k := r.Intn(len(s.Locked))
+		i := r.Intn(len(s.Balances))
+		old := s.Balances[i][0]
+		s.Balances[i][0] = new(big.Int).SetUint64(math.MaxUint64)
+		s.Locked[k].Bals[i] = new(big.Int).Add(s.Locked[k].Bals[i], new(big.Int).Add(old, one()))
 		return true
 	}},
 	{"sum-1", func(r *rand.Rand, c *ctx, s *channel.State, _ *channel.Index) bool {
